@@ -884,7 +884,7 @@ func (fc *FCtx) execRange(s *ast.RangeStmt, st *State, label string) *Flow {
 		// card(map) times. Distinctness of the visited keys is not tracked (an over-approximation of the real
 		// executions, hence sound for the obligations proved about the loop).
 		n = app(fc.mapCard(coll.S), coll.T)
-		fc.note("range over a map: arbitrary key per iteration, card(map) iterations, distinctness of visited keys not tracked")
+		fc.note("range over a map: arbitrary unvisited key per iteration, card(map) iterations, all keys visited at exit (iteration order unspecified)")
 	default:
 		if !isBz(coll.S) {
 			oos("range over %s", coll.S.Name)
@@ -904,6 +904,14 @@ func (fc *FCtx) execRange(s *ast.RangeStmt, st *State, label string) *Flow {
 		st.assume(fmt.Sprintf("(>= %s 0)", n))
 	}
 	sp0 := loopSpecials{"#i": Val{T: "0", S: SInt}, "#n": Val{T: n, S: SInt}, "#coll": coll}
+	visTerm := func(vis string) Val {
+		return Val{T: app("mk_"+coll.S.Name, vis, mpVal(coll)), S: coll.S, GoT: coll.GoT}
+	}
+	var visHead string
+	if coll.S.Kind == KMap {
+		// #visited: the sub-map of keys already visited (each key of the map is visited exactly once)
+		sp0["#visited"] = visTerm(fmt.Sprintf("((as const (Array %s Bool)) false)", coll.S.Key.Name))
+	}
 	fc.checkInvs("inv-establish", ord, ls, st, sp0, bodyPos)
 	lv := fc.modifiedIn(s.Body)
 	if lv.ghost {
@@ -955,6 +963,15 @@ func (fc *FCtx) execRange(s *ast.RangeStmt, st *State, label string) *Flow {
 	gi := fc.U.Fresh("ri", SInt)
 	h.assume(fmt.Sprintf("(and (<= 0 %s) (<= %s %s))", gi, gi, n))
 	sp := loopSpecials{"#i": Val{T: gi, S: SInt}, "#n": Val{T: n, S: SInt}, "#coll": coll}
+	if coll.S.Kind == KMap {
+		visHead = fc.U.Fresh("vis", &Sort{Name: fmt.Sprintf("(Array %s Bool)", coll.S.Key.Name), Kind: KOpaque})
+		// visited keys are keys of the map; there are #i of them
+		fc.U.fresh++
+		qk := fmt.Sprintf("qk_%d", fc.U.fresh)
+		h.assume(fmt.Sprintf("(forall ((%s %s)) (=> (select %s %s) (select %s %s)))", qk, coll.S.Key.Name, visHead, qk, mpDom(coll), qk))
+		h.assume(fmt.Sprintf("(= %s %s)", app(fc.mapCard(coll.S), visTerm(visHead).T), gi))
+		sp["#visited"] = visTerm(visHead)
+	}
 	fc.assumeInvs(ord, ls, h, sp, bodyPos)
 	b := h.clone()
 	b.assume(fmt.Sprintf("(< %s %s)", gi, n))
@@ -975,6 +992,7 @@ func (fc *FCtx) execRange(s *ast.RangeStmt, st *State, label string) *Flow {
 		fc.assignTo(e, v, b)
 	}
 	intT := types.Typ[types.Int]
+	visNext := ""
 	if coll.S.Kind == KMap {
 		for _, o := range lv.objs {
 			if id, ok := unparen(s.X).(*ast.Ident); ok && fc.info().ObjectOf(id) == o {
@@ -983,6 +1001,8 @@ func (fc *FCtx) execRange(s *ast.RangeStmt, st *State, label string) *Flow {
 		}
 		mk := fc.U.Fresh("mk", coll.S.Key)
 		b.assume(fmt.Sprintf("(select %s %s)", mpDom(coll), mk))
+		b.assume(fmt.Sprintf("(not (select %s %s))", visHead, mk))
+		visNext = fmt.Sprintf("(store %s %s true)", visHead, mk)
 		var kt types.Type
 		if mt, ok := coll.GoT.Underlying().(*types.Map); ok {
 			kt = mt.Key()
@@ -1020,6 +1040,9 @@ func (fc *FCtx) execRange(s *ast.RangeStmt, st *State, label string) *Flow {
 	}
 	if e := fc.merge(ends); e != nil {
 		sp1 := loopSpecials{"#i": Val{T: fmt.Sprintf("(+ %s 1)", gi), S: SInt}, "#n": Val{T: n, S: SInt}, "#coll": coll}
+		if coll.S.Kind == KMap {
+			sp1["#visited"] = visTerm(visNext)
+		}
 		fc.checkInvs("inv-preserve", ord, ls, e, sp1, bodyPos)
 		fc.curGhostSet = lv.ghostSet
 		fc.checkLoopFrame(ord, h, e, bodyPos)
@@ -1027,6 +1050,12 @@ func (fc *FCtx) execRange(s *ast.RangeStmt, st *State, label string) *Flow {
 	}
 	x := h.clone()
 	x.assume(fmt.Sprintf("(= %s %s)", gi, n))
+	if coll.S.Kind == KMap {
+		// all keys visited at normal exit
+		fc.U.fresh++
+		qk := fmt.Sprintf("qk_%d", fc.U.fresh)
+		x.assume(fmt.Sprintf("(forall ((%s %s)) (= (select %s %s) (select %s %s)))", qk, coll.S.Key.Name, visHead, qk, mpDom(coll), qk))
+	}
 	out.normal = append(out.normal, x)
 	out.normal = append(out.normal, fb.brk[""]...)
 	delete(fb.brk, "")
